@@ -323,6 +323,12 @@ def run_case(c, d):
             judge_window(c, gname, N, kw, w_again, via='factory-second-request')
             c.compare('factory:second-request-unaffected-by-caller-side-changes', np.asarray(w_again), w_first, 0.0, feats, scale=1.0)
             w = w_first
+            # the same through Window objects: one object's samples, edited by its owner, are not another object's
+            if not kw:
+                o1 = W.Window(N, name)
+                np.multiply(o1.data, 0.5, out=o1.data)
+                o2 = W.Window(N, name)
+                c.compare('Window:second-object-unaffected-by-edits-of-the-first', np.asarray(o2.data), w_first, 1e-15, feats, scale=1.0)
         except Exception as exc:
             c.exception('create_window', exc, dict(feats, step='second-request'))
             return
